@@ -197,7 +197,11 @@ def ob_text(layout, cols, budget_s=60):
             sections.append(("" if deco == 0 else eol) + sep.join(ms) + eol)
         text = ("&" + eol).join(sections)
         nd = N.NoteData(text)
+        peek = next(iter(nd), None)     # an iteration abandoned after the first note must not affect later ones
         out = list(nd)
+        again = list(nd)
+        if len(again) != len(out) or any(a.column != b.column or a.player != b.player or a.note_type is not b.note_type for a, b in zip(again, out)):
+            return False, ("second iteration differs", len(again), len(out))
         if nd.columns != cols:
             return False, ("columns", nd.columns, cols)
         if str(nd) != text:
@@ -222,8 +226,8 @@ def ob_text(layout, cols, budget_s=60):
 LAY_PREFIX = ["", "{e}", "  {e}{e}"]                 # before the first row of every player section
 LAY_ROWPRE = ["", "  "]                              # before every second row
 LAY_ROWSUF = ["", " "]                               # after every row
-LAY_MSEP = ["{e},{e}", ",", "{e}{e},  {e}", " ,{e}"]  # between measures
-LAY_PSEP = ["{e}&{e}", "&", "&{e}", "{e}{e}&"]        # between player sections
+LAY_MSEP = ["{e},{e}", "{e}{e},{e}{e}", "{e}  ,  {e}", "{e},{e}{e}"]  # between measures: the comma on its own line, blanks and blank lines around it
+LAY_PSEP = ["{e}&{e}", "{e}{e}&{e}{e}", "{e} &  {e}", "{e}&{e}{e}"]    # between player sections: '&' on its own line (the property's domain)
 LAY_SUFFIX = ["", "{e}", " {e}{e}", " "]             # after the very last row of the text
 LAY_LAST = ["zero", "plain", "keysound"]             # the very last cell of the text
 LAY_EOL = ["\n", "\r\n"]
@@ -279,7 +283,11 @@ def ob_layout(eol, last, budget_s=200):
             sel[nm] = symx.choose("lay_" + nm, len(lst))
         text, exp = _layout_text(sel, str(symx.SymInt(ksv)))
         nd = N.NoteData(text)
+        peek = next(iter(nd), None)     # an iteration abandoned after the first note must not affect later ones
         out = list(nd)
+        again = list(nd)
+        if len(again) != len(out) or any(a.column != b.column or a.player != b.player or a.note_type is not b.note_type for a, b in zip(again, out)):
+            return False, ("second iteration differs", len(again), len(out))
         if nd.columns != 2:
             return False, ("columns", nd.columns)
         if str(nd) != text:
@@ -404,8 +412,9 @@ def replay(data):
             sections.append(("" if deco == 0 else eol) + sep.join(ms) + eol)
         text = ("&" + eol).join(sections)
         nd = NoteData(text)
+        next(iter(nd), None)
         out = list(nd)
-        bad = out != exp or nd.columns != cols or str(nd) != text or any(not (x < y) for x, y in zip(out, out[1:]))
+        bad = out != exp or list(nd) != exp or nd.columns != cols or str(nd) != text or any(not (x < y) for x, y in zip(out, out[1:]))
         first_bad = next(((x, y) for x, y in zip(out, exp) if x != y), None)
         return bad, f"decoding layout {name} with {cols} columns and keysound {ks}: first differing note (got, expected) = {first_bad}; counts {len(out)}/{len(exp)}"
     if data["func"] == "ob_layout":
@@ -417,8 +426,9 @@ def replay(data):
         text, exp0 = _layout_text(sel, str(ks))
         exp = [Note(beat=Beat(b), column=c, note_type=NoteType(ch), player=p_, keysound_index=(ks if k else None)) for (p_, b, c, ch, k) in exp0]
         nd = NoteData(text)
+        next(iter(nd), None)
         out = list(nd)
-        bad = out != exp or nd.columns != 2 or str(nd) != text or any(not (x < y) for x, y in zip(out, out[1:]))
+        bad = out != exp or list(nd) != exp or nd.columns != 2 or str(nd) != text or any(not (x < y) for x, y in zip(out, out[1:]))
         return bad, f"decoding {text!r}: got {len(out)} notes, expected {len(exp)}; first differing (got, expected) = {next(((x, y) for x, y in zip(out, exp) if x != y), None)}"
     return False, "unknown obligation"
 
